@@ -282,7 +282,7 @@ func runCrash(c *hx.Ctx, bc *builtChain, cw *coqChain, h int, p crashPoint) {
 				[]int64{final.BlockCur, final.EventCur, final.StateCur}, []int64{ref.BlockCur, ref.EventCur, ref.StateCur})
 		}
 	}
-	if p.Torn < 0 || p.Torn == 33 {
+	if len(after) == 2 && (p.Torn < 0 || p.Torn == 33) {
 		c.Sample(map[string]interface{}{"crash": in.Crash, "txs_in_block": len(bc.blocks[h].Transactions), "reopened_height": o.Height,
 		"state_root": o.StateRoot, "next_answers": []string{after[0].Got, after[1].Got}})
 	}
